@@ -51,6 +51,12 @@ def gen_cases(tier, seed):
                     if act[0] in KILLS or other[0] in KILLS:
                         for s in (range(0, n + 1) if tier == 'thorough' else range(0, n + 1, 2)):
                             plist.append([{'at': s, 'act': other}, base])
+        # the kill comes from a callback of the process itself that was scheduled earlier (from outside, or by a step): a watchdog
+        for s0 in range(0, n + 1):
+            plist.append([{'at': s0, 'act': ['soon_kill', 'wd']}])
+            plist.append([{'at': s0, 'act': ['pause', 'p']}, {'at': s0, 'act': ['soon_kill', 'wd']}])
+        for i in range(len(prog['steps'])):
+            plist.append([{'at': ['step', i], 'act': ['soon_kill', 'wd']}])
         # two requests issued from listener callbacks in one run (the second possibly while the first is being carried out)
         for ev1, a1 in (('waiting', ['pause', 'p']), ('running', ['pause', 'p']), ('waiting', ['kill', 'k']), ('running', ['kill', 'k'])):
             for ev2, a2 in (('paused', ['kill', 'k']), ('paused', ['play']), ('played', ['kill', 'k']), ('waiting', ['kill', 'k']), ('running', ['kill', 'k']),
